@@ -242,6 +242,8 @@ class Impl:
                 if kind == "flatten":
                     r = v.flatten()
                     return [4, int(r.shape[1]), int(r.shape[0])] + [z for x in r.ravel().tolist() for z in qpair(x)], info
+                if kind in ("add_fields", "remove_fields"):
+                    info["pre_fields"], info["pre_units"] = list(v._fields), list(v._units)
                 if kind == "add_fields":
                     names = [fname(z) for z in op["names"]]
                     v.add_fields(names[0] if (op.get("asstr") and len(names) == 1) else names)
@@ -478,6 +480,92 @@ def oracle_step(impl, op, res, info, pre_vecs, pre_leaves):
                         return ("%s-value-order" % kind.replace("_", "-"),
                                 "%s(%s) on shape %s: cell %s does not hold the value given for it" % (
                                     kind, show_idx(op["idx"]), shape, p))
+    return None
+
+
+ARITH = {"add": lambda x, c: x + c, "sub": lambda x, c: x - c, "mul": lambda x, c: x * c, "div": lambda x, c: x / c,
+         "floordiv": lambda x, c: x // c, "mod": lambda x, c: x % c, "pow": lambda x, c: x ** c}
+
+
+def same_arr(a, b):
+    return isinstance(a, np.ndarray) and a.shape == b.shape and np.array_equal(a, b)
+
+
+def oracle_effect(impl, op, info, pre_vecs, pre_leaves):
+    """reference semantics of the step on the cell contents (list-of-lists model of the property text):
+    arrays are only changed by field arithmetic / set_flattened, and only those of the addressed vector;
+    the in-place operations, add/remove_fields and copy produce exactly the expected cell contents"""
+    kind = op["op"]
+    pre = {}                                  # id(array) -> (array, content before the step)
+    for lv in pre_leaves:
+        for lf, cp in lv:
+            if isinstance(lf, np.ndarray):
+                pre[id(lf)] = (lf, cp)
+    ok = "exc" not in info
+    tgt = pre_leaves[op["vi"]] if ("vi" in op and op["vi"] < len(pre_leaves)) else []
+    v = pre_vecs[op["vi"]] if ("vi" in op and op["vi"] < len(pre_vecs)) else None
+    expected = {k: cp for k, (_, cp) in pre.items()}
+    if ok and kind in ("field_op", "set_flattened") and v is not None:
+        name = fname(op["name"])
+        k = list(v._fields).index(name)
+        expected = {i: cp.copy() for i, cp in expected.items()}
+        if kind == "field_op":
+            a, x = op["a"]
+            c = int(x) if a == "pow" else float(fr(x))
+            for lf, _ in tgt:                 # once per occurrence, in traversal order
+                if isinstance(lf, np.ndarray):
+                    expected[id(lf)][:, k] = ARITH[a](expected[id(lf)][:, k], c)
+        else:
+            vals = np.array([float(fr(x)) for x in op["vals"]], dtype=float)
+            cur = 0
+            for lf, _ in tgt:                 # row-major cursor
+                if isinstance(lf, np.ndarray):
+                    n = expected[id(lf)].shape[0]
+                    expected[id(lf)][:, k] = vals[cur:cur + n]
+                    cur += n
+    for i, (arr, _) in pre.items():
+        if not same_arr(arr, expected[i]):
+            mine = any(lf is arr for lf, _ in tgt)
+            if kind in ("field_op", "set_flattened") and mine:
+                return ("%s-wrong-values" % kind.replace("_", "-"),
+                        "%s on field %s: a cell of the vector does not hold the expected values" % (
+                            kind if kind != "field_op" else "field %s=" % op["a"][0], fname(op["name"])))
+            return ("unrelated-array-changed", "%s changed the contents of an array that %s" % (
+                kind, "belongs to the vector but must not change" if mine else "is not reachable from the addressed vector"))
+    if not ok or v is None:
+        return None
+    if kind in ("field_op", "set_flattened", "flatten", "field_flatten", "get_data", "getitem"):
+        now = leaves_of(v._data)
+        if len(now) != len(tgt) or any(a is not b for a, (b, _) in zip(now, tgt)):
+            return ("cells-rebound", "%s replaced cell objects of the vector (must work in place / only read)" % kind)
+    if kind in ("add_fields", "remove_fields"):
+        names = [fname(z) for z in op["names"]]
+        oldf, oldu = info["pre_fields"], info["pre_units"]
+        if kind == "add_fields":
+            keep = list(range(len(oldf)))
+            wantf, wantu, pad = oldf + names, oldu + ["none"] * len(names), len(names)
+        else:
+            keep = [i for i, f in enumerate(oldf) if f not in names]
+            wantf, wantu, pad = [oldf[i] for i in keep], [oldu[i] for i in keep], 0
+        if list(v._fields) != wantf or list(v._units) != wantu:
+            return ("%s-schema" % kind.replace("_", "-"), "%s(%s): fields %s units %s, expected %s %s" % (
+                kind, names, v._fields, v._units, wantf, wantu))
+        now = leaves_of(v._data)
+        for a, (b, cp) in zip(now, tgt):
+            if (a is None) != (b is None):
+                return ("%s-cells" % kind.replace("_", "-"), "%s changed which cells are set" % kind)
+            if b is not None:
+                want = np.hstack([cp[:, keep], np.zeros((cp.shape[0], pad))])
+                if not same_arr(a, want):
+                    return ("%s-cells" % kind.replace("_", "-"),
+                            "%s(%s): a cell does not hold the expected columns" % (kind, names))
+    if kind == "copy":
+        w = impl.vecs[-1]
+        now = leaves_of(w._data)
+        if tuple(w._shape) != tuple(v._shape) or list(w._fields) != list(v._fields) or list(w._units) != list(v._units) \
+                or len(now) != len(tgt) or any(((a is None) != (b is None)) or (b is not None and not same_arr(a, cp))
+                                               for a, (b, cp) in zip(now, tgt)):
+            return ("copy-not-equal", "copy() does not hold the same shape / fields / units / cell contents")
     return None
 
 
@@ -837,7 +925,7 @@ def run_history(ops_or_gen, max_steps, use_oracle=True):
         if use_oracle:
             bad = oracle_step(impl, op, res, info, pre_vecs, pre_leaves) or oracle_structure(impl)
             if bad is None:
-                bad = oracle_flatten(impl)
+                bad = oracle_effect(impl, op, info, pre_vecs, pre_leaves) or oracle_flatten(impl)
         if bad and bad[0] == "data-nesting-does-not-match-shape" and op["op"] == "setitem" and \
                 len(op["idx"]) != len(pre_vecs[op["vi"]]._shape):
             bad = ("setitem-index-count-unchecked",
